@@ -40,13 +40,26 @@ func (g *gen) topic(n int) string {
 	return string(b)
 }
 
+var fills = []byte{0xa5, 0x00, 0xff, 0x5a, 0x01, 0x80}
+
 func (g *gen) emit(p packet.Generic) {
 	extra := []int{1, 7, 64}[g.c.Rng.Intn(3)]
-	observe(g.c, hx.PktText(p), extra)
+	fill := fills[g.c.Rng.Intn(len(fills))]
+	text := hx.PktText(p)
+	observe(g.c, text, extra, fill, "")
+	// every third case also with an object that already went through Len/Encode/Write holding
+	// another value (state kept across calls must not show)
+	if caseNo%3 == 0 && len(text) < 40000 {
+		q := hx.PktParse(text)
+		warmUp(q) // (Connect.Encode turns Version 0 into 4)
+		if mutate(q) {
+			observe(g.c, hx.PktText(q), extra, fill, text)
+		}
+	}
 }
 
 var idTable = []int{1, 2, 255, 256, 65534, 65535}
-var strLens = []int{0, 1, 2, 127, 128, 255, 256, 65534, 65535}
+var strLens = []int{0, 1, 2, 127, 128, 255, 256, 32767, 32768, 65534, 65535}
 
 func (g *gen) ids() []packet.ID {
 	var out []packet.ID
@@ -459,7 +472,7 @@ func (g *gen) malformed() {
 		g.emit(&packet.Subscribe{ID: 3, Subscriptions: []packet.Subscription{{Topic: "a", QOS: 1}, {Topic: "b", QOS: packet.QOS(q)}}})
 		g.emit(&packet.Connect{Version: 4, CleanSession: true, ClientID: "c", Will: &packet.Message{Topic: "w", QOS: packet.QOS(q)}})
 	}
-	for _, n := range []int{65536, 65537, 70000} {
+	for _, n := range []int{65536, 70000} {
 		g.emit(&packet.Publish{Message: packet.Message{Topic: g.topic(n), QOS: 0}})
 		g.emit(&packet.Connect{Version: 4, CleanSession: true, ClientID: g.str(n)})
 		g.emit(&packet.Connect{Version: 4, CleanSession: true, ClientID: "c", Username: g.str(n)})
@@ -570,16 +583,83 @@ func (g *gen) randomMalformed() packet.Generic {
 	return p
 }
 
+// ---------------------------------------------------------------- exhaustive value sweeps
+// every value of every one-byte code / level field (well-formed ones must encode to the layout,
+// the others must be rejected or at least keep Len() and Encode in agreement)
+func (g *gen) codeSweeps() {
+	for v := 0; v < 256; v++ {
+		g.emit(&packet.Connack{SessionPresent: v%2 == 1, ReturnCode: packet.ConnackCode(v)})
+		g.emit(&packet.Suback{ID: g.anyID(), ReturnCodes: []packet.QOS{1, packet.QOS(v), 0}})
+		g.emit(&packet.Publish{Message: packet.Message{Topic: "q", Payload: []byte{byte(v)}, QOS: packet.QOS(v), Retain: v%2 == 0}, Dup: v%3 == 0, ID: 77})
+		g.emit(&packet.Subscribe{ID: g.anyID(), Subscriptions: []packet.Subscription{{Topic: "s", QOS: packet.QOS(v)}}})
+		g.emit(&packet.Connect{Version: byte(v), CleanSession: true, ClientID: "c"})
+		g.emit(&packet.Connect{Version: 4, CleanSession: true, ClientID: "c", Will: &packet.Message{Topic: "w", QOS: packet.QOS(v)}})
+	}
+	// every byte value inside strings and payloads, at every position of a short field
+	all := make([]byte, 256)
+	for i := range all {
+		all[i] = byte(i)
+	}
+	g.emit(&packet.Publish{Message: packet.Message{Topic: string(all), Payload: all, QOS: 2}, ID: 0x0102})
+	g.emit(&packet.Connect{Version: 3, CleanSession: false, ClientID: string(all), Username: string(all), Password: string(all),
+		Will: &packet.Message{Topic: string(all), Payload: all, QOS: 1}})
+	g.emit(&packet.Subscribe{ID: 0xff00, Subscriptions: []packet.Subscription{{Topic: string(all), QOS: 2}}})
+	g.emit(&packet.Unsubscribe{ID: 0x00ff, Topics: []string{string(all)}})
+}
+
+// packet ids: both bytes through all their values
+func (g *gen) idSweep() {
+	for id := 1; id <= 65535; id++ {
+		if g.c.Thorough() || id < 520 || id > 65535-260 || id&0xff == 0 || id&0xff == 0xff || id&0xff == 0x80 {
+			g.emit(identified(id%5, packet.ID(id)))
+		}
+	}
+	for _, id := range []int{1, 255, 256, 0x1234, 0xff00, 65535} {
+		g.emit(&packet.Publish{Message: packet.Message{Topic: "t", QOS: 1}, ID: packet.ID(id)})
+		g.emit(&packet.Subscribe{ID: packet.ID(id), Subscriptions: []packet.Subscription{{Topic: "t", QOS: 0}}})
+		g.emit(&packet.Suback{ID: packet.ID(id), ReturnCodes: []packet.QOS{0}})
+		g.emit(&packet.Unsubscribe{ID: packet.ID(id), Topics: []string{"t"}})
+	}
+	for _, ka := range []int{0, 1, 127, 128, 255, 256, 257, 0x1234, 0xff00, 65534, 65535} {
+		g.emit(&packet.Connect{Version: 4, CleanSession: true, ClientID: "k", KeepAlive: uint16(ka)})
+	}
+}
+
+// list lengths between "a few" and "thousands"
+func (g *gen) listSizes() {
+	codes := []packet.QOS{0, 1, 2, 128}
+	for _, n := range []int{9, 10, 15, 16, 17, 31, 32, 33, 63, 64, 65, 127, 128, 129, 255, 256, 257, 511, 512, 1000} {
+		s := &packet.Subscribe{ID: g.anyID()}
+		u := &packet.Unsubscribe{ID: g.anyID()}
+		a := &packet.Suback{ID: g.anyID()}
+		for i := 0; i < n; i++ {
+			s.Subscriptions = append(s.Subscriptions, packet.Subscription{Topic: g.topic(g.c.Rng.Intn(4)), QOS: packet.QOS(i % 3)})
+			u.Topics = append(u.Topics, g.topic(g.c.Rng.Intn(4)))
+			a.ReturnCodes = append(a.ReturnCodes, codes[i%4])
+		}
+		g.emit(s)
+		g.emit(u)
+		g.emit(a)
+	}
+	// duplicates and empty filters in one list
+	g.emit(&packet.Subscribe{ID: 9, Subscriptions: []packet.Subscription{{Topic: "a", QOS: 0}, {Topic: "a", QOS: 2}, {Topic: "", QOS: 1}, {Topic: "a", QOS: 0}}})
+	g.emit(&packet.Unsubscribe{ID: 9, Topics: []string{"a", "", "a", "b", "c", "d"}})
+	g.emit(&packet.Unsubscribe{ID: 9, Topics: []string{"a", "b", "c", "d"}})
+}
+
 func generate(c *hx.Ctx) {
 	g := &gen{c: c}
 	g.matrices()
+	g.codeSweeps()
+	g.idSweep()
+	g.listSizes()
 	g.stringBoundaries()
 	g.exactRemaining()
 	g.longLists()
 	g.malformed()
 	structured := caseNo
 	c.Stat("structured_cases", structured)
-	total := 5000
+	total := structured + 2000
 	if c.Thorough() {
 		total = 300000
 	}
